@@ -320,7 +320,12 @@ def typestate(repo, chk, m, fn, popen_call):
             chk.judge("R10.c", key + f":{norm(c)} is bounded", s is None,
                       f"unbounded {norm(c)} on a child that is {s} (user code that loops, or ignores SIGTERM, makes compile_code hang)", None, f"{m.path}:{c.lineno}")
         else:
-            ok = isinstance(t, ast.Constant) and isinstance(t.value, (int, float)) and not isinstance(t.value, bool) and 0 < t.value <= 60
+            tv = t.value if isinstance(t, ast.Constant) else None
+            if isinstance(t, ast.Name):
+                # a module-level constant bound once
+                from ..modconst import module_constants
+                tv = module_constants(m).get(t.id)
+            ok = isinstance(tv, (int, float)) and not isinstance(tv, bool) and 0 < tv <= 60
             chk.judge("R10.c", key + f":{norm(c)} is bounded", ok, f"timeout {norm(t)} is not a positive literal (<= 60 s)", {"timeout": norm(t)}, f"{m.path}:{c.lineno}")
 
 
